@@ -2175,6 +2175,55 @@ fn main() {
             });
         }
     }
+    // ---- C06: several serde(..) entries inside ONE cfg_attr all count, whichever comes first
+    {
+        let src = format!("{}#[derive(Serialize, Deserialize, Clone)]\npub struct Account17 {{\n    #[cfg_attr(feature = \"wire\", serde(default), serde(rename = \"accountId\"))]\n    pub account_id: u32,\n    #[cfg_attr(feature = \"wire\", serde(default), serde(skip))]\n    pub cache: u32,\n    #[cfg_attr(feature = \"wire\", serde(rename = \"firstOne\"), serde(default))]\n    pub first_one: u32,\n    pub plain: u32,\n}}\n\
+            #[derive(Serialize, Deserialize, Clone)]\npub enum Speed17 {{\n    #[cfg_attr(feature = \"wire\", serde(alias = \"quick\"), serde(rename = \"fast-path\"))]\n    Fast,\n    #[cfg_attr(feature = \"wire\", serde(alias = \"gone\"), serde(skip))]\n    Hidden,\n    Slow,\n}}\n#[tauri::command]\npub fn account(a: Account17, s: Speed17) -> u32 {{ 0 }}\n", HDR);
+        let dir = root.join("cfg_attr_serde/src");
+        write_files(&dir, &[("lib.rs".to_string(), src)]);
+        for mode in ["none", "zod"] {
+            let files = generate(&dir, &root.join(format!("cfg_attr_serde/out_{}", mode)), mode);
+            rep.case("struct_keys_are_serde_wire_names", &format!("Account17 with cfg_attr(.., serde(default), serde(rename = \"accountId\")), cfg_attr(.., serde(default), serde(skip)), cfg_attr(.., serde(rename = \"firstOne\"), serde(default)) mode={}", mode), &|| {
+                let files = files.as_ref().map_err(|e| e.clone())?;
+                let mut keys = object_keys(files.get("types.ts").ok_or("no types.ts")?, "Account17", mode == "zod").ok_or("UNPARSED: Account17 not found")?;
+                keys.sort();
+                if keys != ["accountId", "firstOne", "plain"] { return Err(format!("keys {:?}; serde reads and writes [accountId, firstOne, plain]", keys)); }
+                Ok(format!("{:?}", keys))
+            });
+            rep.case("enum_literals_are_serde_wire_names", &format!("Speed17 with cfg_attr(.., serde(alias = \"quick\"), serde(rename = \"fast-path\")) Fast, cfg_attr(.., serde(alias = \"gone\"), serde(skip)) Hidden, Slow mode={}", mode), &|| {
+                let files = files.as_ref().map_err(|e| e.clone())?;
+                let mut lits = enum_literals(files.get("types.ts").ok_or("no types.ts")?, "Speed17", mode == "zod").ok_or("UNPARSED: Speed17 not found")?;
+                lits.sort();
+                if lits != ["Slow", "fast-path"] { return Err(format!("literals {:?}; serde's wire names are [Slow, fast-path]", lits)); }
+                Ok(format!("{:?}", lits))
+            });
+        }
+    }
+    // ---- C02: an enum without variants is a type of the bindings like any other: what refers to it resolves, in both modes
+    {
+        let src = format!("{}#[derive(Serialize, Deserialize, Clone)]\npub enum Never17 {{}}\n#[derive(Serialize, Deserialize, Clone)]\npub struct Holder17 {{ pub gap: Option<Never17> }}\n#[tauri::command]\npub fn maybe() -> Option<Never17> {{ None }}\n#[tauri::command]\npub fn held(h: Holder17) -> Vec<Never17> {{ vec![] }}\n", HDR);
+        let dir = root.join("empty_enum/src");
+        write_files(&dir, &[("lib.rs".to_string(), src)]);
+        for mode in ["none", "zod"] {
+            let files = generate(&dir, &root.join(format!("empty_enum/out_{}", mode)), mode);
+            rep.case("type_references_resolve", &format!("project=empty_enum (enum Never17 {{}} as return type, under Option and Vec, and as a field) mode={}", mode), &|| references_resolve(files.as_ref().map_err(|e| e.clone())?, &["Never17", "Holder17"]));
+        }
+    }
+    // ---- C10: a Vec<T> parameter has an array schema also when a set of the same element type was a parameter before it
+    {
+        let src = format!("{}use std::collections::{{HashSet, BTreeSet}};\n#[tauri::command]\npub fn set_tags(seen: HashSet<String>, tags: Vec<String>, ids: BTreeSet<u32>, nums: Vec<u32>) -> u32 {{ 0 }}\n#[tauri::command]\npub fn z_later(list: Vec<String>, flags: Vec<bool>, marks: HashSet<bool>) -> u32 {{ 0 }}\n", HDR);
+        let dir = root.join("set_then_vec/src");
+        write_files(&dir, &[("lib.rs".to_string(), src)]);
+        let files = generate(&dir, &root.join("set_then_vec/out_zod"), "zod");
+        for (cmd, key) in [("SetTagsParams", "tags"), ("SetTagsParams", "nums"), ("ZLaterParams", "list"), ("ZLaterParams", "flags")] {
+            rep.case("both_modes_same_primitive_kind", &format!("fn set_tags(seen: HashSet<String>, tags: Vec<String>, ids: BTreeSet<u32>, nums: Vec<u32>); fn z_later(list: Vec<String>, flags: Vec<bool>, marks: HashSet<bool>): {}.{}", cmd, key), &|| {
+                let files = files.as_ref().map_err(|e| e.clone())?;
+                let sch = zod_field(files.get("types.ts").ok_or("no types.ts")?, cmd, key).ok_or(format!("UNPARSED: {}Schema has no key {}", cmd, key))?;
+                if !sch.starts_with("z.array(") { return Err(format!("{}.{} is a Vec (declared T[] in plain mode) but its schema is `{}`, which accepts no array", cmd, key, sch)); }
+                Ok(sch)
+            });
+        }
+    }
     // ---- C07: a command named by a raw identifier (r#move) keeps its channels: their message types, reachable through nothing else, are declared
     {
         let src = format!("{}#[derive(Serialize, Clone)]\npub struct StepEvent {{ pub detail: StepDetail }}\n#[derive(Serialize, Clone)]\npub struct StepDetail {{ pub n: u32 }}\n#[derive(Serialize, Clone)]\npub struct CopyTick {{ pub done: u64 }}\n#[derive(Serialize, Deserialize)]\npub struct Decoy16 {{ pub n: u32 }}\n\
